@@ -7,6 +7,9 @@ package preference_reversal
 
 //@ spec mirrored(r utils.ValueRange, v real) real = r.Max - v + r.Min
 
+// observedIn(r, d, id): r is the range of criterion id observed over all alternatives of the state d
+//@ pred observedIn(r utils.ValueRange, d *model.DecisionMakingParams, id string) = model.observedAll(r, d.ConsideredAlternatives, d.NotConsideredAlternatives, id)
+//@   opaque
 //@ func getCriteriaToReverse
 //@   property C16 C07 C09 C01
 //@   ensures [selected] fresh(result) && fresh(*result) && len(*result) == len(*criteriaToReverse)
@@ -14,6 +17,8 @@ package preference_reversal
 //@   ensures [declared_range] forall k int :: 0 <= k && k < len(*criteriaToReverse) && (*criteriaToReverse)[k].ValuesRange != nil ==> (*result)[k].valRange == (*criteriaToReverse)[k].ValuesRange
 //@   ensures [observed_range reveal:observed] forall k int :: 0 <= k && k < len(*criteriaToReverse) && (*criteriaToReverse)[k].ValuesRange == nil ==>
 //@             model.observedAll(*(*result)[k].valRange, currentParams.ConsideredAlternatives, currentParams.NotConsideredAlternatives, (*criteriaToReverse)[k].Id)
+//@   ensures [observed_in_the_current_state reveal:observedIn reveal:observed] forall k int :: 0 <= k && k < len(*criteriaToReverse) && (*criteriaToReverse)[k].ValuesRange == nil ==>
+//@             observedIn(*(*result)[k].valRange, currentParams, (*criteriaToReverse)[k].Id)
 //@   loop 1 invariant [ctx] fresh(result) && len(result) == len(*criteriaToReverse) && len(allAlternatives) == len(currentParams.ConsideredAlternatives) + len(currentParams.NotConsideredAlternatives)
 //@   loop 1 invariant [all] forall k int :: 0 <= k && k < len(allAlternatives) ==> allAlternatives[k] == model.altAt(currentParams.ConsideredAlternatives, currentParams.NotConsideredAlternatives, k)
 //@   loop 1 invariant [selected] forall k int :: 0 <= k && k < iter ==> result[k].criterion == (*criteriaToReverse)[k] && result[k].valRange != nil
@@ -121,6 +126,9 @@ package preference_reversal
 //@ pred prActs(b model.Bias, out *model.DecisionMakingParams, in *model.DecisionMakingParams) = out.Criteria == in.Criteria && out.MethodParameters == in.MethodParameters && len(out.ConsideredAlternatives) == len(in.ConsideredAlternatives)
 //@ func (*PreferenceReversal).Apply
 //@   refines model.Bias.Apply with actsOn=prActs
+//@   returnhint [ranges_come_from_the_current_state] forall k int :: 0 <= k && k < len(*criteriaToReverse) ==>
+//@             ((*criteriaToReverse)[k].criterion.ValuesRange != nil ? (*criteriaToReverse)[k].valRange == (*criteriaToReverse)[k].criterion.ValuesRange
+//@               : observedIn(*(*criteriaToReverse)[k].valRange, current, (*criteriaToReverse)[k].criterion.Id))
 //@   property C16 C09 C07 C01
 //@   requires model.distinctCriteria(current.Criteria) && model.validParams(*listener, current.MethodParameters) && model.coversAll(*listener, current.MethodParameters, current.Criteria)
 //@   requires distinctAll(current.ConsideredAlternatives, current.NotConsideredAlternatives)
@@ -141,3 +149,26 @@ package preference_reversal
 //@   ensures  mirrored(r, r.Min) == r.Max && mirrored(r, r.Max) == r.Min
 //@ lemma [C16] mirror_is_involution: forall r utils.ValueRange, v real
 //@   ensures  mirrored(r, mirrored(r, v)) == v
+
+// the bias takes ordering and split condition exactly as the shared parsers give them (no defaults of its own)
+//@ func parseProps
+//@   property C16 C20 C07 C09
+//@   ensures [ordering_as_requested] result0 != nil && result0.Ordering == (decoded_has(*props, "Ordering") ? decoded_str(*props, "Ordering") : "")
+//@   ensures [split_as_requested] result1 != nil && result1.Ratio == (decoded_has(*props, "Ratio") ? decoded_real(*props, "Ratio") : 0.0)
+//@             && result1.Min == (decoded_has(*props, "Min") ? decoded_int(*props, "Min") : 0)
+//@             && result1.Max == (decoded_has(*props, "Max") ? decoded_int(*props, "Max") : 9223372036854775807)
+
+// the registered object holds exactly the collaborators it was built with, each in its own role
+//@ func NewPreferenceReversal
+//@   property C16 C09 C07
+//@   nopanic
+//@   ensures [wired_as_given] result != nil && fresh(result) && result.orderingResolvers == orderingResolvers
+
+// ---- wire format: the JSON names under which requests are read and responses are written (struct tags; encoding/json
+// itself is outside the verified code).  A renamed or omitempty field changes what a client sees without changing any Go value.
+//@ wire PreferenceReversalResult
+//@   property C01 C07 C09 C16 C20
+//@   json ReversedPreferenceCriteria=reversedPreferenceCriteria
+//@ wire ReversedPreferenceCriterion
+//@   property C01 C07 C09 C16 C20
+//@   json Id=id Type=type ValuesRange=valuesRange AlternativesValues=alternativesValues
